@@ -379,6 +379,9 @@ func Generate(r *rand.Rand, cfg GenCfg, rec *Recorder) *Scenario {
 				if ep.Cheaters[c.ID] && r.Intn(3) == 0 {
 					np = 0 // cheaters often extend their branches with self-parent-only events
 				}
+				if len(mine) == 1 && mine[0].SP == 0 && len(mine[0].Ps) > 0 && r.Intn(2) == 0 {
+					np = 0 // a late joiner's second event often has only its first event as parent
+				}
 				if justWoke[c.ID] {
 					np = len(vals) - 1 // a validator that wakes up references every head it can see
 					delete(justWoke, c.ID)
